@@ -93,7 +93,7 @@ class Stub:
                 kindattr = ATTR_KINDS.get(f"{cls}.{name}")
                 if kindattr == "attribute":
                     return pop_call(f"{cls}.{name}")
-                return lambda *a, **k: pop_call(f"{cls}.{name}")
+                return lambda *a, **k: pop_call(f"{cls}.{name}", (self,) + a, k)
             raise AttributeError(f"stub {self._sort} has no model for {name}")
         if ATTR_KINDS.get(f"{cls}.{name}") == "attribute":
             ids = [self._sid]
@@ -223,12 +223,33 @@ def decode(v, ctx):
             if v["kind"] == "tuple":
                 return tuple(items)
             return items
+        if t == "global":
+            return resolve(v["qual"])
         if t == "enum":
             return getattr(resolve(v["cls"]), v["name"])
         if t == "class":
             return resolve(v["cls"])
         if t == "obj":
+            if v["cls"].startswith("spec:"):
+                # a nominal object of the contract (no repository class): attributes only
+                ns = types.SimpleNamespace()
+                for k, x in v["fields"].items():
+                    setattr(ns, k, decode(x, ctx))
+                return ns
             cls = resolve(v["cls"])
+            if not isinstance(cls, type):
+                # a factory function of the standard library (threading.Lock, ...): build the real thing
+                o = cls()
+                for k, x in v["fields"].items():
+                    try:
+                        object.__setattr__(o, k, decode(x, ctx))
+                    except (AttributeError, TypeError):
+                        pass
+                return o
+            props = [k for k in v["fields"] if isinstance(getattr(cls, k, None), property) and getattr(cls, k).fset is None]
+            if props:
+                # read-only properties given a value by the contract: a subclass in which they are plain attributes
+                cls = type(cls.__name__, (cls,), {k: None for k in props})
             try:
                 o = object.__new__(cls)
             except TypeError:
